@@ -40,7 +40,7 @@ def make_script(rng, name, kind=None, plan=None, nkeys=None, length=None):
                 lines.append(rng.choice([f"tfind {k} {pred(k)}", f"tfind {k} {pred()}", f"tfindmut {k} {pred(k)} {v}", f"titerhash {k}", f"tentrydrop {k}"]))
             else:
                 c = rng.choice(["tretain", "textractif", "tdrain", "tclear", "treserve", "ttryreserve", "tshrinkto", "tshrinktofit",
-                                "tgetmanymut", "tgetmanymut", "titer", "tlen", "tcapacity", "tallocsize", "tdrop", "twithcap"])
+                                "tgetmanymut", "tgetmanymut", "titer", "tlen", "tcapacity", "tallocsize", "tdrop", "twithcap", "tintoiter"])
                 if c == "tretain":
                     keep = [x for x in range(nkeys + 2) if rng.random() < rng.choice([0.2, 0.8])]
                     lines.append(f"tretain {rng.randrange(3)} " + " ".join(map(str, keep)))
@@ -49,6 +49,10 @@ def make_script(rng, name, kind=None, plan=None, nkeys=None, length=None):
                     lines.append(f"textractif {rng.choice([0, 1, 2, 1000])} " + " ".join(map(str, sel)))
                 elif c == "tdrain":
                     lines.append(f"tdrain {rng.choice([0, 1, 3, 1000])}")
+                elif c == "tintoiter":
+                    if rng.random() < 0.3:
+                        lines.append(rng.choice(["tclear", "tdrain 1000"]))
+                    lines.append(f"tintoiter {rng.choice([0, 1, 2, 3, 1000])}")
                 elif c in ("treserve", "ttryreserve", "tshrinkto", "twithcap"):
                     lines.append(f"{c} {rng.choice([0, 1, 3, 4, 7, 8, 14, 15, 28, 29, 57, rng.randrange(200)])}")
                 elif c == "tgetmanymut":
